@@ -184,6 +184,21 @@ static void run(void) {
                 }
             if (VF_MINE(idx++)) case_ancestors(p);
         }
+    /* cells that left a pentagon's centre chain early and then followed centre children for many levels (a hexagon whose
+     * trailing digits are all zero on a pentagon base cell): the digit pattern where "is this still a pentagon?" shortcuts go wrong */
+    for (int k = 0; k < 12; k++)
+        for (int L = 1; L <= 6; L++)
+            for (int d = 2; d <= 6; d += (VF.thorough ? 1 : 2))
+                for (int r = L; r <= 14; r++) {
+                    if (!VF_MINE(idx++)) continue;
+                    int dg[15] = {0};
+                    dg[L - 1] = d;
+                    H3Index c = vf_make_cell(r, REF_PENT_BC[k], dg);
+                    case_children(c, r + 1);
+                    if (r + 2 <= 15) case_children(c, r + 2);
+                    if (r >= L + 6) case_ancestors(c);
+                    vf_add("pentagon_base_zero_tail.cells", 1);
+                }
     int nh = VF_T(1500, 20000);
     for (int i = 0; i < nh; i++) {
         int res = (int)vf_below(&r, 16);
